@@ -42,6 +42,10 @@ type Case struct {
 	Parallel int
 	// More: further Sign calls made one after another on the same Signer once the first is judged
 	More int `json:",omitempty"`
+	// Ctx: the caller's context: "" = a 30 s deadline | done = already cancelled when Sign is called |
+	// short = a deadline of ShortMS milliseconds (it may end during any endpoint's attempt)
+	Ctx     string `json:",omitempty"`
+	ShortMS int    `json:",omitempty"`
 }
 
 func gen(t *rapid.T) Case {
@@ -56,6 +60,12 @@ func gen(t *rapid.T) Case {
 	c.ViaConf = rapid.Bool().Draw(t, "viaConf")
 	c.Parallel = rapid.SampledFrom([]int{1, 1, 2, 3, 4}).Draw(t, "parallel")
 	c.More = rapid.SampledFrom([]int{0, 0, 0, 0, 3, 12, 50}).Draw(t, "more")
+	if rapid.IntRange(0, 5).Draw(t, "ctxKind") == 2 {
+		c.Ctx = rapid.SampledFrom([]string{"done", "short", "short"}).Draw(t, "ctx")
+		if c.Ctx == "short" {
+			c.ShortMS = rapid.SampledFrom([]int{1, 5, 20, 50, 100, 250, 600, 1500}).Draw(t, "shortMS")
+		}
+	}
 	n := rapid.SampledFrom([]int{1, 1, 2, 2, 3, 3, 3, 4, 6, 8}).Draw(t, "n")
 	for i := 0; i < n; i++ {
 		l := fmt.Sprintf("e%d", i)
@@ -183,6 +193,14 @@ func exec(c Case) (vh.Outcome, error) {
 	req := &pb.SSHCertificateSigningRequest{KeyMeta: &pb.KeyMeta{Identifier: "ssh-user-key"}, Principals: []string{"user_a"}, PublicKey: string(ssh.MarshalAuthorizedKey(vh.SSHPub("p256b"))), Validity: 3600, KeyId: "k"}
 	ctx, cancel := context.WithTimeout(context.Background(), 30*time.Second)
 	defer cancel()
+	switch c.Ctx {
+	case "done":
+		cancel()
+	case "short":
+		var cancel2 context.CancelFunc
+		ctx, cancel2 = context.WithTimeout(context.Background(), time.Duration(c.ShortMS)*time.Millisecond)
+		defer cancel2()
+	}
 	par := c.Parallel
 	if par < 1 {
 		par = 1
@@ -215,6 +233,27 @@ func exec(c Case) (vh.Outcome, error) {
 	}
 	if par > 1 {
 		out.Classes = append(out.Classes, "simultaneous-calls")
+	}
+	if c.Ctx != "" {
+		// a caller whose context is over (or ends during some attempt) may be told so by an error at any
+		// point; what must still hold: impostors never receive the request, and a call that reports
+		// success hands back the first genuine endpoint's certificate
+		out.Classes = append(out.Classes, "ctx="+c.Ctx)
+		for i, e := range c.Endpoints {
+			if calls := g.Servers[i].Calls(); !genuine(e) && len(calls) > 0 {
+				return out, vh.Errf("%s, caller context %s (%d ms): endpoint %d (%s) is not authenticated by the configured bundle, yet it received the signing request", desc, c.Ctx, c.ShortMS, i, e.Identity)
+			}
+		}
+		for k, r := range results {
+			if r.err != nil {
+				continue
+			}
+			out.Classes = append(out.Classes, "ctx-ended-call-succeeded")
+			if first < 0 || len(r.certs) != 1 || !bytes.Equal(r.certs[0].Marshal(), epCert(first).Marshal()) {
+				return out, vh.Errf("%s, caller context %s (%d ms): call %d reported success with %d certificate(s) that are not the first genuine endpoint's (first genuine endpoint: %d)", desc, c.Ctx, c.ShortMS, k, len(r.certs), first)
+			}
+		}
+		return out, nil
 	}
 	// every call is judged like a single one
 	certs, serr := results[0].certs, results[0].err
@@ -280,7 +319,7 @@ func exec(c Case) (vh.Outcome, error) {
 	return out, nil
 }
 
-const rule = "CA bundles of one or two files (single CA, the other CA, both as separate files, both in one file, a file listed twice, a CA together with its successor under the same subject name and another key - in two files in either order or in one file; a quarter of the bundles name a file whose NAME contains pattern metacharacters, a backslash, blanks or non-ASCII letters - 'ca[AB].crt', 'ca?.crt', 'ca*.crt', '{caA,caForeign}.crt' ... - holding one CA, while the files such a pattern would match hold the other CAs, the foreign one included) and, 4 in 20, degenerate ones (no file at all, empty paths, an empty path next to a real file: either refused as configuration, or no CA beyond the readable files is trusted); the 'foreign' CA is installed as this process's host trust store (SSL_CERT_FILE), i.e. it stands for a publicly trusted CA that is not configured; 1..8 endpoints on loopback aliases (the caller's context carries a 30 s deadline), each a real gRPC-over-TLS server with identity {issued by configured CA A / CA B / CA A's same-named successor with matching IP SAN, by a foreign CA, self-signed, expired a day ago / 20 s ago, not yet valid, valid since 20 s only (genuine), valid for another address, issued by the CA of the RA's own client certificate} x protocol range {TLS 1.0-1.1 only, 1.2 only, 1.3 only, any} x client-certificate policy {none, request, require+verify, request while naming another CA, verify-if-given against the right / another client CA}; the signer is built from the struct or from the 'signer' map of a gensign configuration; the client certificate file holds the leaf alone, the leaf followed by its issuing CA, or (a quarter of the cases) a leaf issued by an intermediate CA followed by that intermediate, while the servers that verify client certificates know the root only; 1..4 Sign calls issued at the same moment on the one Signer, each judged like a single call, in three cases of seven followed by 3 / 12 / 50 further calls one after another (a Signer lives as long as the process); every server would sign (each with its own certificate, so the answering server is identifiable). Oracle: Sign succeeds iff some endpoint is genuine (issued by a CA of the bundle, right address, valid now, speaks >= TLS 1.2) and the answer is the first such endpoint's; impostors never receive the RPC; negotiated version >= 1.2; when the server asked, the peer certificate is byte-identical to the configured client certificate. Non-trivial: at least one impostor in the list."
+const rule = "CA bundles of one or two files (single CA, the other CA, both as separate files, both in one file, a file listed twice, a CA together with its successor under the same subject name and another key - in two files in either order or in one file; a quarter of the bundles name a file whose NAME contains pattern metacharacters, a backslash, blanks or non-ASCII letters - 'ca[AB].crt', 'ca?.crt', 'ca*.crt', '{caA,caForeign}.crt' ... - holding one CA, while the files such a pattern would match hold the other CAs, the foreign one included) and, 4 in 20, degenerate ones (no file at all, empty paths, an empty path next to a real file: either refused as configuration, or no CA beyond the readable files is trusted); the 'foreign' CA is installed as this process's host trust store (SSL_CERT_FILE), i.e. it stands for a publicly trusted CA that is not configured; 1..8 endpoints on loopback aliases (the caller's context carries a 30 s deadline; in a sixth of the cases it is already cancelled or ends after 1..1500 ms, i.e. possibly during some endpoint's attempt - then only 'impostors never receive the request' and 'success => the first genuine endpoint's certificate' are judged), each a real gRPC-over-TLS server with identity {issued by configured CA A / CA B / CA A's same-named successor with matching IP SAN, by a foreign CA, self-signed, expired a day ago / 20 s ago, not yet valid, valid since 20 s only (genuine), valid for another address, issued by the CA of the RA's own client certificate} x protocol range {TLS 1.0-1.1 only, 1.2 only, 1.3 only, any} x client-certificate policy {none, request, require+verify, request while naming another CA, verify-if-given against the right / another client CA}; the signer is built from the struct or from the 'signer' map of a gensign configuration; the client certificate file holds the leaf alone, the leaf followed by its issuing CA, or (a quarter of the cases) a leaf issued by an intermediate CA followed by that intermediate, while the servers that verify client certificates know the root only; 1..4 Sign calls issued at the same moment on the one Signer, each judged like a single call, in three cases of seven followed by 3 / 12 / 50 further calls one after another (a Signer lives as long as the process); every server would sign (each with its own certificate, so the answering server is identifiable). Oracle: Sign succeeds iff some endpoint is genuine (issued by a CA of the bundle, right address, valid now, speaks >= TLS 1.2) and the answer is the first such endpoint's; impostors never receive the RPC; negotiated version >= 1.2; when the server asked, the peer certificate is byte-identical to the configured client certificate. Non-trivial: at least one impostor in the list."
 
 func TestC18TLS(t *testing.T) {
 	vh.Run(t, vh.Spec[Case]{Property: "C18", Name: "TestC18TLS", Rule: rule, Gen: gen, Exec: exec})
